@@ -155,7 +155,7 @@ def shard(idx, n, tier):
     from hypothesis import given, settings, HealthCheck, Phase
     res = core.Result()
     total = 80000 if tier == "thorough" else 6400
-    variants = [("full", gen.Opts(), 5), ("nobundle", gen.Opts(bundles=False, pairs=False), 2),
+    variants = [("full", gen.Opts(), 5), ("nobundle", gen.Opts(bundles=False, pairs=False, same_name_ext=True), 2),
                 ("refs", gen.Opts(bundles=False, arrays=False, pairs=False, max_insts=5, max_modules=2), 2),
                 ("history", gen.Opts(history=True, max_modules=3), 2),  # ports re-connected before their final connection
                 ("leafnames", gen.Opts(adversarial_leaf_names=True, max_modules=3, arrays=False, pairs=False), 1)]
